@@ -48,7 +48,7 @@ PLANS = {
                 thorough=[("multi", 2000, ""), ("multix", 1500, ""), ("absorb", 400, "")]),
 }
 
-PLANS["C19"] = dict(engine=INO, mc=[],
+PLANS["C19"] = dict(engine=INO, mc=["MC_Recurse"],
                     quick=[("recurse", 300, ""), ("recerr", 30, "")],
                     thorough=[("recurse", 8000, ""), ("recerr", 400, "")])
 _KQ = dict(engine="kq", driver="kqrun", trace_spec="KqueueTrace", mc=["MC_Kq"],
